@@ -1,4 +1,7 @@
 import DVP.Lemmas.LoopFixed
+import DVP.Lemmas.LoopEquiv
+import DVP.Lemmas.RK
+import DVP.Lemmas.RKEquiv
 /-!
 # C04 — fixed-step methods take the requested step wherever the time axis sits
 
@@ -8,11 +11,15 @@ the same step again (this is what `RungeKuttaIntegrator.__call__` / `ExplicitSym
 __call__` return when the method is neither adaptive nor implicit; checked on every recorded
 return of the real integrators).
 
-PARTIAL.  Proved: the requested steps.  Known finding P8 (implicit fixed-step methods): the step
+PARTIAL.  Proved: the requested steps; shift and reflection equivariance of the whole time-grid
+state machine relative to an integrator whose returns are equivariant (`shift_equivariance`,
+`reflection_equivariance`), and that the explicit Runge–Kutta step of an autonomous right-hand side
+does not see the time at all (`autonomous_step_ignores_time`) and that the step of the time-reversed
+problem is the mirrored step (`step_reflection`).  Known finding P8 (implicit fixed-step methods): the step
 controller runs with a zero error estimate and *grows* the step — the parenthesis of the property
 ("an implicit method may only shorten a step whose stage equations fail to converge") is false of
-the code.  Checked on the implementation only (states are not part of the loop model): shift and
-reflection invariance of the computed states.
+the code.  Checked on the implementation only (states are not part of the loop model): that the
+computed states of shifted / reflected runs agree to rounding level.
 -/
 namespace DVP.C04
 open DV DV.Loop DVP.Loop
@@ -43,6 +50,57 @@ theorem integrate_initial_step_magnitude (cfg : Cfg ℚ) (s : Sys ℚ) (target :
 /-- the recorded steps are the requested ones: the fixed-step integrator honours the contract, so
 all of C03 applies as well -/
 theorem fixed_oracle_honours_contract : OracleOK fixedOrc := fixedOrc_ok
+
+/-- **Shift equivariance**: for every system, target, shift `c`, integrator/callback oracle and number
+of steps, integrating the system shifted by `c` to the shifted target — with the same integrator seen
+from shifted time, i.e. one whose returns do not depend on where the time axis sits — records exactly
+the shifted times, makes the same requests, ends with the same `dt` and the same status. -/
+theorem shift_equivariance (cfg : Cfg ℚ) (c target : ℚ) (s : Sys ℚ) (orc : Oracle ℚ) (fuel : Nat) :
+    let a := integrate cfg (shiftSys c s) (target + c) (shiftOrc c orc) fuel
+    let b := integrate cfg s target orc fuel
+    a.sys.ts = b.sys.ts.map (· + c) ∧ a.reqs.map (·.h) = b.reqs.map (·.h) ∧ a.sys.dt = b.sys.dt ∧
+      a.sys.status = b.sys.status ∧ a.iters = b.iters := by
+  simp only [integrate_shift]
+  refine ⟨rfl, ?_, rfl, rfl, rfl⟩
+  simp [shiftOut, shiftReq, Function.comp_def]
+
+/-- **Reflection equivariance**: the time-reversed system integrated to the mirrored target with the
+integrator of the time-reversed problem records the mirrored times with the mirrored steps. -/
+theorem reflection_equivariance (cfg : Cfg ℚ) (target : ℚ) (s : Sys ℚ) (orc : Oracle ℚ) (fuel : Nat) :
+    let a := integrate cfg (reflSys s) (-target) (reflOrc orc) fuel
+    let b := integrate cfg s target orc fuel
+    a.sys.ts = b.sys.ts.map (fun t => -t) ∧ a.reqs.map (·.h) = b.reqs.map (fun r => -r.h) ∧ a.sys.dt = -b.sys.dt ∧
+      a.sys.status = b.sys.status ∧ a.iters = b.iters := by
+  simp only [integrate_refl]
+  refine ⟨rfl, ?_, rfl, rfl, rfl⟩
+  simp [reflOut, reflReq, Function.comp_def]
+
+/-- the fixed-step integrator is such an integrator: it is its own shifted and reflected version -/
+theorem fixed_oracle_equivariant (c : ℚ) : shiftOrc c fixedOrc = fixedOrc ∧ reflOrc fixedOrc = fixedOrc := by
+  constructor
+  · funext k t h; rfl
+  · funext k t h; simp [reflOrc, reflIter, fixedOrc]
+
+/-- **An autonomous right-hand side makes the explicit Runge–Kutta step independent of the time**:
+the increment, the end slope and the stages are the same wherever the step starts (so the returns of
+the real integrator on an autonomous system do not depend on the shift — the hypothesis under which
+`shift_equivariance` speaks about actual runs). -/
+theorem autonomous_step_ignores_time {V : Type} (ops : DV.RK.VOps ℚ V) (g : V → V) (t t' : ℚ) (y : V) (h : ℚ)
+    (c : List ℚ) (A : List (List ℚ)) (b : List ℚ) (fsal : Bool) (stages : List V) :
+    DV.RK.rkStepExplicit ops (fun _ y => g y) t y h c A b fsal stages =
+      DV.RK.rkStepExplicit ops (fun _ y => g y) t' y h c A b fsal stages := rfl
+
+/-- **Reflection of the explicit Runge–Kutta step**: for every right-hand side `f`, explicit or FSAL
+table, state and step `h` of either sign, the step of the time-reversed problem
+`f'(τ, y) = −f(−τ, y)` by `−h` from `−t` yields the same increment (hence the same new state), the
+negated stage slopes and the negated end slope — the returns of the real integrator on the reflected
+problem are the mirrored ones, the hypothesis under which `reflection_equivariance` speaks about runs. -/
+theorem step_reflection {V : Type} [AddCommGroup V] [Module ℚ V] (f : ℚ → V → V) (t : ℚ) (y : V) (h : ℚ)
+    (c : List ℚ) (A : List (List ℚ)) (b : List ℚ) (fsal : Bool) (stages : List V) :
+    let o' := DV.RK.rkStepExplicit (DVP.RK.modOps (V := V)) (DVP.RK.reflF f) (-t) y (-h) c A b fsal (stages.map (fun k => -k))
+    let o := DV.RK.rkStepExplicit (DVP.RK.modOps (V := V)) f t y h c A b fsal stages
+    o'.dState = o.dState ∧ o'.finalRhs = -o.finalRhs ∧ o'.stages = o.stages.map (fun k => -k) :=
+  DVP.RK.rkStep_reflection f t y h c A b fsal stages
 
 /-- non-vacuity: backward over a mixed-sign span, 0.3 does not divide 0.75: requests -0.3, -0.3, -0.15 -/
 example : ((integrate (α := ℚ) { eps := 1/2^50, tolEps := 1/2^47, half := 1/2 } (construct (α := ℚ) (1/2) (-1/4) (3/10)) (-1/4)
